@@ -52,21 +52,28 @@ Proof.
 Qed.
 
 (* ------------------------------------------------------------------ the job-local part of Dependency.check *)
+Lemma dstatus_eqb_eq : forall a b, dstatus_eqb a b = true <-> a = b.
+Proof. destruct a, b; simpl; split; congruence. Qed.
+
 (* what an asynchronous dependency check may do to the record of its target (repaired code) *)
 Record async_ok (r r' : jst) : Prop := {
   ao_held : held r' = held r;
   ao_launches : launches r' = launches r;
-  ao_pc : pc r' = pc r \/ (pc r = PAwaitReady /\ pc r' = PWokenReady /\ ev r = false);
+  ao_pc : pc r' = pc r \/ (pc r = PAwaitReady /\ pc r' = PWokenReady /\ ev r = false /\ ev r' = true);
   ao_ev : ev r = true -> ev r' = true /\ pc r' = pc r;
   ao_st : st r' = st r
           \/ (finished (st r) = false /\ st r' = ERROR /\ fdep r' = true /\ ev r' = true)
           \/ (notstarted (st r) = true /\ st r' = READY /\ uns r' = 0 /\ ev r' = true);
   ao_fdep : fdep r = true -> fdep r' = true;
-  ao_len : length (cur r') = length (cur r)
+  ao_len : length (cur r') = length (cur r);
+  ao_wake : ev r' = true -> ev r = false -> pc r = PAwaitReady -> pc r' = PWokenReady;
+  ao_evst : ev r' = ev r \/ st r' = ERROR \/ st r' = READY;
+  ao_uns0 : r' = r \/ (uns r' = 0 -> notstarted (st r') = true -> st r' = READY);
+  ao_fdep2 : fdep r' = fdep r \/ (finished (st r) = false /\ st r' = ERROR)
 }.
 
 Lemma async_ok_refl : forall r, async_ok r r.
-Proof. intros; constructor; auto. Qed.
+Proof. intros; constructor; auto. intros; congruence. Qed.
 
 Lemma set_event_l_spec : forall r r' w, set_event_l r = (r', w) ->
   st r' = st r /\ uns r' = uns r /\ cur r' = cur r /\ held r' = held r /\ fdep r' = fdep r /\ launches r' = launches r /\
@@ -81,7 +88,6 @@ Qed.
 Lemma depchanged_l_async : forall r i old new r' w,
   depchanged_l true r i old new = (r', w) ->
   async_ok r r' /\ cur r' = replace_nth i new (cur r) /\
-  (st r' = READY \/ uns r' = uns r - (okval new - okval old)) /\
   uns r' = uns r - (okval new - okval old) /\
   (w = true <-> pc r' <> pc r) /\
   (st r' = ERROR -> st r = ERROR \/ new = DFAIL) /\
@@ -95,16 +101,12 @@ Proof.
     destruct S2 as (S_st & S_uns & S_cur & S_held & S_fdep & S_l & S_ev & S_pc).
     assert (N : (uns r2 =? 0) && (negb true || notstarted (st r2)) = false).
     { rewrite S_st. simpl. apply andb_false_r. }
-    rewrite N in H. inversion H; subst r' w. clear H N.
+    rewrite N in H. inversion H; subst r' w. clear H N. rewrite orb_false_r.
     apply andb_true_iff in E1. destruct E1 as [E1 E2]. apply negb_true_iff in E2. simpl in E2.
-    assert (new = DFAIL) by (destruct new; simpl in E1; congruence).
-    split; [constructor|]; simpl; rewrite ?S_st, ?S_uns, ?S_cur, ?S_held, ?S_fdep, ?S_l, ?replace_nth_length; auto.
-    + destruct S_pc as [(?&?&?)|(?&?&?&?)]; [left|right]; auto.
-    + intros Hev. destruct S_pc as [(?&?&?)|(?&?&?&?)]; [auto | congruence].
-    + right; left. auto.
-    + rewrite orb_false_r. repeat split; auto.
-      * intros ->. destruct S_pc as [(?&?&?)|(?&?&?&?)]; congruence.
-      * intros Hp. destruct S_pc as [(?&?&?)|(?&?&?&?)]; [exfalso; auto | auto].
+    apply dstatus_eqb_eq in E1.
+    split; [constructor|]; simpl; rewrite ?S_st, ?S_uns, ?S_cur, ?S_held, ?S_fdep, ?S_l, ?replace_nth_length; auto;
+      try solve [destruct S_pc as [(?&?&[?|?])|(?&?&?&?)]; subst; intuition (auto; congruence)].
+    right. intros _ Hn. discriminate.
   - destruct ((uns r1 =? 0) && (negb true || notstarted (st r1))) eqn:E3.
     + destruct (set_event_l (w_st r1 READY)) as [r3 w3] eqn:S3.
       apply set_event_l_spec in S3. simpl in S3.
@@ -112,18 +114,680 @@ Proof.
       inversion H; subst r' w. clear H.
       apply andb_true_iff in E3. destruct E3 as [E3 E4]. simpl in E3, E4.
       apply Z.eqb_eq in E3.
-      split; [constructor|]; simpl; rewrite ?S_st, ?S_uns, ?S_cur, ?S_held, ?S_fdep, ?S_l, ?replace_nth_length; auto.
-      * destruct S_pc as [(?&?&?)|(?&?&?&?)]; [left|right]; auto.
-      * intros Hev. destruct S_pc as [(?&?&?)|(?&?&?&?)]; [auto | congruence].
-      * right; right. auto.
-      * repeat split; auto; try congruence.
-        -- intros ->. destruct S_pc as [(?&?&?)|(?&?&?&?)]; congruence.
-        -- intros Hp. destruct S_pc as [(?&?&?)|(?&?&?&?)]; [exfalso; auto | auto].
-        -- intros ->. apply andb_false_iff in E1. destruct E1 as [E1|E1]; [discriminate|].
-           apply negb_false_iff in E1. simpl in E1. destruct (st r); simpl in *; congruence.
+      assert (NF : new = DFAIL -> finished (st r) = true).
+      { intros ->. apply andb_false_iff in E1. destruct E1 as [E1|E1]; [discriminate|].
+        apply negb_false_iff in E1. exact E1. }
+      split; [constructor|]; simpl; rewrite ?S_st, ?S_uns, ?S_cur, ?S_held, ?S_fdep, ?S_l, ?replace_nth_length; auto;
+        try solve [destruct S_pc as [(?&?&[?|?])|(?&?&?&?)]; subst; intuition (auto; congruence)].
+      repeat split; auto; try congruence;
+        try solve [destruct S_pc as [(?&?&[?|?])|(?&?&?&?)]; subst; intuition (auto; congruence)].
+      intros Hf. specialize (NF Hf). destruct (st r); simpl in *; congruence.
     + inversion H; subst r' w. clear H.
-      split; [constructor|]; simpl; rewrite ?replace_nth_length; auto.
-      repeat split; auto; try congruence.
-      intros ->. apply andb_false_iff in E1. destruct E1 as [E1|E1]; [discriminate|].
-      apply negb_false_iff in E1. auto.
+      split; [constructor|]; simpl; rewrite ?replace_nth_length; auto; try (intros; congruence).
+      * right. intros U Hn. apply andb_false_iff in E3. simpl in E3. destruct E3 as [E3|E3].
+        -- apply Z.eqb_neq in E3. contradiction.
+        -- congruence.
+      * repeat split; auto; try congruence.
+        intros ->. apply andb_false_iff in E1. destruct E1 as [E1|E1]; [discriminate|].
+        apply negb_false_iff in E1. auto.
 Qed.
+
+Lemma replace_nth_id : forall (l : list dstatus) i x, nth_error l i = Some x -> replace_nth i x l = l.
+Proof. induction l; destruct i; simpl; intros; try discriminate; try (inversion H; subst; auto). f_equal; eauto. Qed.
+
+Lemma check_l_async : forall r i new r' w, check_l true r i new = (r', w) ->
+  async_ok r r' /\ (w = true <-> pc r' <> pc r) /\
+  (st r' = ERROR -> st r = ERROR \/ new = DFAIL) /\
+  (forall old, nth_error (cur r) i = Some old ->
+     cur r' = replace_nth i new (cur r) /\ uns r' = uns r - (okval new - okval old) /\
+     (new = DFAIL -> old <> DFAIL -> finished (st r') = true)) /\
+  (nth_error (cur r) i = None -> r' = r).
+Proof.
+  unfold check_l; intros r i new r' w H. destruct (nth_error (cur r) i) as [old|] eqn:N.
+  - destruct (dstatus_eqb new old) eqn:E.
+    + inversion H; subst. apply dstatus_eqb_eq in E. subst.
+      split; [apply async_ok_refl|]. split; [intuition congruence|].
+      split; [auto|]. split; [|discriminate]. intros old' Ho. inversion Ho; subst old'.
+      rewrite (replace_nth_id _ _ N). repeat split; auto; try lia; congruence.
+    + apply depchanged_l_async in H. destruct H as (A & C & U & Wk & E1 & F).
+      split; [exact A|]. split; [exact Wk|]. split; [exact E1|]. split; [|discriminate].
+      intros old' Ho. inversion Ho; subst old'. split; [exact C|]. split; [exact U|]. intros; auto.
+  - inversion H; subst. split; [apply async_ok_refl|]. repeat split; auto; try congruence; try discriminate.
+Qed.
+
+(* ------------------------------------------------------------------ job-local invariant *)
+Definition in_run (p : pcT) : bool :=
+  match p with PExt ALockOutRun | PWoken ALockOutRun | PExt AProc | PWoken AProc => true | _ => false end.
+Definition in_start (p : pcT) : bool :=
+  match p with PExt ALockIn | PWoken ALockIn | PExt ALockOutAbort | PWoken ALockOutAbort => true | _ => in_run p end.
+Definition code_state (c : Z) : jstate := if c =? 0 then DONE else ERROR.
+
+Record linv (ds : list dep) (mk : bool) (code : Z) (r : jst) : Prop := {
+  l_A : past_loop (pc r) = true -> finished (st r) = true;
+  l_D : st r = DONE -> past_loop (pc r) = true;
+  l_EV : pc r = PAwaitReady -> ev r = false /\ st r = WAITING /\ uns r <> 0;
+  l_CI : started (pc r) = true -> length (cur r) = length ds /\ uns r = Z.of_nat (count_nok (cur r));
+  l_L1 : (launches r <= 1)%nat;
+  l_run : in_run (pc r) = true -> launches r = 1%nat;
+  l_L2 : launches r = 1%nat -> mk = false /\ (in_run (pc r) = true \/ (past_loop (pc r) = true /\ st r = code_state code));
+  l_L0 : launches r = 0%nat -> st r = DONE -> mk = true;
+  l_mk : mk = true -> started (pc r) = true -> st r = DONE;
+  l_E : st r = ERROR -> launches r = 0%nat -> fdep r = true;
+  l_EN : st r = ERROR -> pc r = PWokenReady \/ past_loop (pc r) = true;
+  l_un : started (pc r) = false -> launches r = 0%nat /\ held r = [] /\ st r = UNSCHEDULED /\ fdep r = false /\ cur r = [] /\ uns r = 0;
+  l_F : (exists i, nth_error (cur r) i = Some DFAIL) -> finished (st r) = true;
+  l_held : held r <> [] -> pc r = PWoken ALockIn \/ pc r = PExt ALockOutAbort \/ pc r = PWoken ALockOutAbort \/ in_run (pc r) = true;
+  l_WR : pc r = PWokenReady -> ev r = true;
+  l_RS : st r = READY -> started (pc r) = true
+}.
+
+Lemma linv_jst0 : forall ds mk code, linv ds mk code jst0.
+Proof.
+  intros; constructor; simpl; try discriminate; auto; try lia; try (intros; repeat split; auto; fail);
+    try (intros X; exfalso; apply X; reflexivity);
+    try (intros; match goal with H : exists _, _ |- _ => destruct H as [i Hi]; destruct i; discriminate end).
+Qed.
+
+(* an asynchronous check preserves the local invariant *)
+Lemma linv_async : forall ds mk code r r',
+  linv ds mk code r -> started (pc r) = true -> async_ok r r' ->
+  (in_start (pc r) = true -> st r' = ERROR -> st r = ERROR) ->
+  uns r' = Z.of_nat (count_nok (cur r')) ->
+  ((exists i, nth_error (cur r') i = Some DFAIL) -> (exists i, nth_error (cur r) i = Some DFAIL) \/ finished (st r') = true) ->
+  linv ds mk code r'.
+Proof.
+  intros ds mk code r r' L S A Hnf Hu Hf.
+  destruct A as [Ah Al Ap Ae As Afd Alen Aw Aes Au0 Af2].
+  assert (PC : pc r' = pc r \/ (pc r = PAwaitReady /\ pc r' = PWokenReady /\ ev r = false)) by (destruct Ap as [?|(?&?&?&?)]; auto).
+  assert (FIN : finished (st r) = true -> st r' = st r).
+  { intros F. destruct As as [?|[(?&?)|(N&?)]]; auto; try congruence. destruct (st r); simpl in *; congruence. }
+  constructor.
+  - (* A *) intros P. destruct PC as [E|(E1&E2&_)]; [|rewrite E2 in P; discriminate].
+    rewrite E in P. pose proof (l_A L P) as F. rewrite (FIN F). exact F.
+  - (* D *) intros D. assert (st r = DONE).
+    { destruct As as [E|[(?&E&_)|(?&E&_)]]; congruence. }
+    pose proof (l_D L H) as P. destruct PC as [E|(E1&_)]; [congruence|]. rewrite E1 in P. discriminate.
+  - (* EV *) intros P. destruct PC as [E|(_&E2&_)]; [|congruence]. rewrite E in P.
+    destruct (l_EV L P) as (E1 & E2 & E3).
+    assert (st r' = st r).
+    { destruct As as [?|[(_&_&_&X)|(_&_&_&X)]]; auto; pose proof (Aw X E1 P); congruence. }
+    assert (ev r' = false).
+    { destruct Aes as [?|[?|?]]; congruence. }
+    repeat split; auto; try congruence.
+    destruct Au0 as [->|U]; auto. intros Z0. rewrite H, E2 in U. specialize (U Z0 eq_refl). discriminate.
+  - (* CI *) intros _. split; [rewrite Alen; apply (l_CI L S)|exact Hu].
+  - rewrite Al. apply (l_L1 L).
+  - intros R. rewrite Al. apply (l_run L). destruct PC as [E|(_&E&_)]; [congruence|]. rewrite E in R; discriminate.
+  - intros L1. rewrite Al in L1. destruct (l_L2 L L1) as (M & [R|(P & C)]); split; auto.
+    + left. destruct PC as [E|(E&_)]; [congruence|]. rewrite E in R; discriminate.
+    + right. pose proof (l_A L P) as F. rewrite (FIN F). destruct PC as [E|(E&_)]; [split; congruence|].
+      rewrite E in P; discriminate.
+  - intros L0 D. rewrite Al in L0. apply (l_L0 L L0). destruct As as [E|[(?&E&_)|(?&E&_)]]; congruence.
+  - intros M _. pose proof (l_mk L M S) as D. rewrite FIN; auto. rewrite D; auto.
+  - intros E L0. rewrite Al in L0. destruct As as [X|[(_&_&X&_)|(_&X&_)]]; auto; try congruence.
+    apply Afd. apply (l_E L); congruence.
+  - (* EN *) intros E.
+    destruct As as [X|[(NF&_&_&EV)|(_&X&_)]]; try congruence.
+    + rewrite X in E. destruct (l_EN L E) as [P|P].
+      * left. destruct PC as [E'|(E'&_)]; congruence.
+      * right. destruct PC as [E'|(E'&_)]; [congruence|]. rewrite E' in P; discriminate.
+    + destruct (pc r) eqn:P; simpl in S; try discriminate.
+      * left. apply Aw; auto. apply (l_EV L P).
+      * left. destruct PC as [?|(?&_)]; congruence.
+      * destruct a; try (exfalso; assert (st r = ERROR) by (apply Hnf; auto); rewrite H in NF; discriminate).
+        pose proof (l_A L) as F. rewrite P in F. simpl in F. rewrite F in NF; auto. discriminate.
+      * destruct a; try (exfalso; assert (st r = ERROR) by (apply Hnf; auto); rewrite H in NF; discriminate).
+        pose proof (l_A L) as F. rewrite P in F. simpl in F. rewrite F in NF; auto. discriminate.
+      * pose proof (l_A L) as F. rewrite P in F. simpl in F. rewrite F in NF; auto. discriminate.
+  - intros NS. exfalso. destruct PC as [E|(_&E&_)]; rewrite E in NS; [congruence|discriminate].
+  - intros X. destruct (Hf X) as [Y|Y]; auto. pose proof (l_F L Y) as F. rewrite (FIN F). exact F.
+  - rewrite Ah. intros H. destruct (l_held L H) as [P|[P|[P|P]]]; destruct PC as [E|(E&_)]; rewrite ?E in *; try discriminate; tauto.
+  - intros P. destruct Ap as [E|(_&_&_&E)]; auto.
+    rewrite E in P. apply Ae. apply (l_WR L P).
+  - intros R. destruct PC as [E|(_&E&_)]; rewrite E; auto.
+Qed.
+
+(* ------------------------------------------------------------------ the coroutine's own steps (job-local part) *)
+(* the facts that do not mention the program counter *)
+Record lmid (ds : list dep) (mk : bool) (code : Z) (r : jst) : Prop := {
+  m_CI : length (cur r) = length ds /\ uns r = Z.of_nat (count_nok (cur r));
+  m_L1 : (launches r <= 1)%nat;
+  m_mk1 : launches r = 1%nat -> mk = false;
+  m_L0 : launches r = 0%nat -> st r = DONE -> mk = true;
+  m_mk : mk = true -> st r = DONE;
+  m_E : st r = ERROR -> launches r = 0%nat -> fdep r = true;
+  m_F : (exists i, nth_error (cur r) i = Some DFAIL) -> finished (st r) = true;
+  m_held : held r = [];
+  m_fin : finished (st r) = true -> launches r = 1%nat -> st r = code_state code;
+  m_nf : finished (st r) = false -> launches r = 0%nat
+}.
+
+Lemma lmid_ev : forall ds mk code r b, lmid ds mk code r -> lmid ds mk code (w_ev r b).
+Proof. intros ds mk code r b [? ? ? ? ? ? ? ? ? ?]; constructor; simpl; auto. Qed.
+
+Lemma linv_doneh : forall ds mk code r, lmid ds mk code r -> finished (st r) = true ->
+  linv ds mk code (w_pc r (PExt ADoneH)).
+Proof.
+  intros ds mk code r [? ? ? ? ? ? ? ? ? ?] F; constructor; simpl; auto; try discriminate; try congruence.
+Qed.
+
+Lemma linv_awaitready : forall ds mk code r, lmid ds mk code r -> st r = WAITING -> ev r = false -> uns r <> 0 ->
+  linv ds mk code (w_pc r PAwaitReady).
+Proof.
+  intros ds mk code r [CI L1 MK1 L0 MK ME MF MH MFIN MNF] S E U; constructor; simpl; auto; try discriminate; try congruence.
+  intros L. rewrite S in MNF. simpl in MNF. rewrite MNF in L; auto. discriminate.
+Qed.
+
+Lemma linv_lockin : forall ds mk code r, lmid ds mk code r -> st r = READY ->
+  linv ds mk code (w_pc r (PExt ALockIn)).
+Proof.
+  intros ds mk code r [CI L1 MK1 L0 MK ME MF MH MFIN MNF] S; constructor; simpl; auto; try discriminate; try congruence.
+  intros L. rewrite S in MNF. simpl in MNF. rewrite MNF in L; auto. discriminate.
+Qed.
+
+Lemma finish_l_ok : forall ds mk code r, lmid ds mk code r -> finished (st r) = true ->
+  linv ds mk code (fst (finish_l r)).
+Proof. intros. simpl. apply linv_doneh; auto. Qed.
+
+Lemma loop_tail_l_ok : forall ds mk code r, lmid ds mk code r ->
+  (finished (st r) = false -> st r = WAITING /\ ev r = false /\ uns r <> 0) ->
+  linv ds mk code (fst (loop_tail_l r)).
+Proof.
+  intros ds mk code r M H. unfold loop_tail_l. destruct (finished (st r)) eqn:F.
+  - apply finish_l_ok; auto.
+  - destruct (H eq_refl) as (?&?&?). simpl. apply linv_awaitready; auto.
+Qed.
+
+Lemma after_ready_l_ok : forall ds mk code r, lmid ds mk code r ->
+  (st r = READY \/ finished (st r) = true \/ (st r = WAITING /\ uns r <> 0)) ->
+  linv ds mk code (fst (after_ready_l r)).
+Proof.
+  intros ds mk code r M H. unfold after_ready_l. simpl.
+  destruct (st r) eqn:S; try (apply loop_tail_l_ok; [apply lmid_ev; auto|simpl; rewrite S; simpl; intros; try discriminate;
+     destruct H as [?|[?|(?&?)]]; try discriminate; auto]).
+  simpl. apply linv_lockin; [apply lmid_ev; auto|simpl; auto].
+Qed.
+
+Lemma main_loop_l_ok : forall ds mk code r, lmid ds mk code r ->
+  (st r = READY /\ ev r = true \/ finished (st r) = true \/ (st r = WAITING /\ uns r <> 0)) ->
+  linv ds mk code (fst (main_loop_l r)).
+Proof.
+  intros ds mk code r M H. unfold main_loop_l. destruct (finished (st r)) eqn:F.
+  - apply finish_l_ok; auto.
+  - destruct (ev r) eqn:E.
+    + apply after_ready_l_ok; auto. destruct H as [(?&?)|[?|?]]; auto; congruence.
+    + destruct H as [(?&?)|[?|(?&?)]]; try congruence. simpl. apply linv_awaitready; auto.
+Qed.
+
+(* ------------------------------------------------------------------ registration loop of aio_submit *)
+Record reginv (n : nat) (r : jst) : Prop := {
+  ri_len : length (cur r) = n;
+  ri_uns : uns r = Z.of_nat (count_nok (cur r));
+  ri_l : launches r = 0%nat;
+  ri_h : held r = [];
+  ri_pc : pc r = PSpawned;
+  ri_st : (st r = WAITING /\ ev r = false /\ uns r <> 0) \/ (st r = READY /\ ev r = true /\ uns r = 0)
+          \/ (st r = ERROR /\ ev r = true /\ fdep r = true);
+  ri_F : (exists i, nth_error (cur r) i = Some DFAIL) -> st r = ERROR
+}.
+
+Lemma count_nok_wait : forall l i, nth_error l i = Some DWAIT -> (count_nok l > 0)%nat.
+Proof. induction l; destruct i; simpl; intros; try discriminate. inversion H; subst; simpl; lia. specialize (IHl _ H). lia. Qed.
+
+Lemma nth_error_replace : forall A i j (v : A) l, nth_error (replace_nth i v l) j =
+  if Nat.eqb i j then match nth_error l j with Some _ => Some v | None => None end else nth_error l j.
+Proof.
+  induction i; destruct l; destruct j; simpl; auto; try (destruct (Nat.eqb i j); auto; fail).
+Qed.
+
+Lemma reginv_check : forall n r i new r' w, reginv n r -> nth_error (cur r) i = Some DWAIT ->
+  check_l true r i new = (r', w) -> reginv n r' /\ cur r' = replace_nth i new (cur r).
+Proof.
+  intros n r i new r' w R N H. apply check_l_async in H. destruct H as (A & _ & E & C & _).
+  destruct (C _ N) as (Cc & Cu & Cf). clear C.
+  destruct A as [Ah Al Ap Ae As Afd Alen Aw Aes Au0 Af2]. destruct R as [Rl Ru Rla Rh Rp Rs Rf].
+  assert (U' : uns r' = Z.of_nat (count_nok (cur r'))).
+  { rewrite Cc, Cu, Ru. symmetry. apply count_nok_replace; auto. }
+  split; auto. constructor; auto; try congruence.
+  - destruct Ap as [?|(?&_)]; congruence.
+  - pose proof (count_nok_wait _ _ N) as P.
+    destruct Rs as [(S&E0&U)|[(S&E0&U)|(S&E0&F)]].
+    + destruct As as [X|[(_&X&X2&X3)|(_&X&X2&X3)]]; auto.
+      left. rewrite X, S. split; auto. split.
+      * destruct Aes as [?|[?|?]]; congruence.
+      * destruct Au0 as [->|Y]; auto. intros Z0. rewrite X, S in Y. specialize (Y Z0 eq_refl). discriminate.
+    + lia.
+    + right; right. destruct (Ae E0) as (E1 & _). split; auto.
+      destruct As as [X|[(X&_)|(X&_)]]; try congruence; rewrite S in X; discriminate.
+  - intros (k & Hk). rewrite Cc in Hk. rewrite nth_error_replace in Hk.
+    destruct (Nat.eqb i k) eqn:Ek.
+    + apply Nat.eqb_eq in Ek. subst k. rewrite N in Hk. inversion Hk; subst new.
+      assert (F : finished (st r') = true) by (apply Cf; auto; discriminate).
+      destruct As as [X|[(_&X&_)|(_&X&_)]]; auto; try (rewrite X in F; discriminate).
+      destruct Rs as [(S&_)|[(S&_&U)|(S&_)]]; try congruence; rewrite X, S in F; discriminate.
+    + assert (S : st r = ERROR) by (apply Rf; eauto).
+      destruct As as [X|[(X&_)|(X&_)]]; try congruence; rewrite S in X; discriminate.
+Qed.
+
+Lemma replace_nth_app : forall A (done : list A) v x tl, replace_nth (length done) v (done ++ x :: tl) = done ++ v :: tl.
+Proof. induction done; simpl; intros; auto. f_equal; auto. Qed.
+Lemma nth_error_app_len : forall A (done : list A) x tl, nth_error (done ++ x :: tl) (length done) = Some x.
+Proof. induction done; simpl; auto. Qed.
+
+Lemma reg_l_ok : forall news n r done,
+  reginv n r -> cur r = done ++ repeat DWAIT (length news) ->
+  reginv n (reg_l true r news (length done)) /\ cur (reg_l true r news (length done)) = done ++ news.
+Proof.
+  induction news as [|x rest IH]; simpl; intros n r done R C.
+  - rewrite app_nil_r in *. auto.
+  - destruct (check_l true r (length done) x) as [r' w] eqn:H. simpl.
+    assert (N : nth_error (cur r) (length done) = Some DWAIT) by (rewrite C; apply nth_error_app_len).
+    destruct (@reginv_check n r (length done) x r' w R N H) as (R' & C').
+    rewrite C, replace_nth_app in C'.
+    specialize (IH n r' (done ++ [x]) R').
+    rewrite app_length in IH. simpl in IH. rewrite Nat.add_1_r in IH.
+    rewrite <- !app_assoc in IH. simpl in IH. apply IH. exact C'.
+Qed.
+
+(* shape of the results of the loop functions: they only move the program counter and the event *)
+Definition loop_shape (r : jst) (p : jst * bool) : Prop :=
+  st (fst p) = st r /\ cur (fst p) = cur r /\ uns (fst p) = uns r /\ held (fst p) = held r /\
+  fdep (fst p) = fdep r /\ launches (fst p) = launches r /\
+  (snd p = true <-> (past_loop (pc (fst p)) = true /\ st r <> DONE)) /\
+  ((pc (fst p) = PExt ADoneH /\ finished (st r) = true) \/
+   (pc (fst p) = PAwaitReady /\ finished (st r) = false) \/
+   (pc (fst p) = PExt ALockIn /\ st r = READY)).
+
+Lemma finish_l_shape : forall r, finished (st r) = true -> loop_shape r (finish_l r).
+Proof. intros r F. unfold loop_shape, finish_l. simpl. destruct (st r); simpl in *; try discriminate; intuition congruence. Qed.
+Lemma loop_tail_l_shape : forall r, loop_shape r (loop_tail_l r).
+Proof.
+  intros r. unfold loop_tail_l. destruct (finished (st r)) eqn:F; [apply finish_l_shape; auto|].
+  unfold loop_shape. simpl. intuition congruence.
+Qed.
+Lemma after_ready_l_shape : forall r, loop_shape r (after_ready_l r).
+Proof.
+  intros r. unfold after_ready_l. simpl.
+  destruct (st r) eqn:S; try (pose proof (loop_tail_l_shape (w_ev r false)) as L; unfold loop_shape in *; simpl in *; rewrite S in *; exact L).
+  unfold loop_shape; simpl. intuition congruence.
+Qed.
+Lemma main_loop_l_shape : forall r, loop_shape r (main_loop_l r).
+Proof.
+  intros r. unfold main_loop_l. destruct (finished (st r)) eqn:F; [apply finish_l_shape; auto|].
+  destruct (ev r); [apply after_ready_l_shape|]. unfold loop_shape; simpl. intuition congruence.
+Qed.
+
+Lemma spawn_l_ok : forall ds mk code r news,
+  linv ds mk code r -> pc r = PSpawned -> length news = length ds ->
+  let p := spawn_l true mk r news in
+  linv ds mk code (fst p) /\ cur (fst p) = news /\ started (pc (fst p)) = true /\
+  (snd p = true <-> (past_loop (pc (fst p)) = true /\ st (fst p) <> DONE)) /\
+  (st (fst p) = READY -> forall i d, nth_error news i = Some d -> d = DOK) /\
+  held (fst p) = [] /\ launches (fst p) = 0%nat /\
+  (st (fst p) = DONE -> mk = true).
+Proof.
+  intros ds mk code r news L P Len p.
+  assert (NS : started (pc r) = false) by (rewrite P; auto).
+  destruct (l_un L NS) as (Ul & Uh & Us & Uf & Uc & Uu).
+  set (r0 := w_st (w_ev r false) WAITING).
+  set (r1 := match news with
+             | [] => w_st (w_ev r0 true) READY
+             | _ => reg_l true (w_cur (w_uns r0 (Z.of_nat (length news))) (repeat DWAIT (length news))) news 0
+             end).
+  assert (R1 : reginv (length news) r1 /\ cur r1 = news).
+  { subst r1. destruct news as [|x rest] eqn:En.
+    - simpl. split; [constructor; simpl; auto|auto].
+      + rewrite Uc; auto.
+      + rewrite Uc; simpl; auto.
+      + intros (i & Hi). rewrite Uc in Hi. destruct i; discriminate.
+    - rewrite <- En in *. apply (@reg_l_ok news (length news) _ []); simpl; auto.
+      constructor; simpl; auto.
+      + apply repeat_length.
+      + rewrite count_nok_repeat; auto.
+      + left. repeat split; auto. rewrite En. simpl. lia.
+      + intros (i & Hi). apply nth_error_In in Hi. apply repeat_spec in Hi. discriminate. }
+  destruct R1 as (R1 & C1). destruct R1 as [Rl Ru Rla Rh Rp Rs Rf].
+  set (r2 := if mk then w_st r1 DONE else r1).
+  assert (M2 : lmid ds mk code r2).
+  { subst r2. destruct mk; constructor; simpl; auto; try congruence; try lia.
+    - intros _ D. destruct Rs as [(S&_)|[(S&_)|(S&_)]]; congruence.
+    - intros E _. destruct Rs as [(S&_)|[(S&_)|(S&_&F)]]; congruence.
+    - intros X. rewrite (Rf X). auto. }
+  assert (D2 : st r2 = READY /\ ev r2 = true \/ finished (st r2) = true \/ st r2 = WAITING /\ uns r2 <> 0).
+  { subst r2. destruct mk; simpl; auto.
+    destruct Rs as [(S&E&U)|[(S&E&U)|(S&E&F)]]; auto. right; left. rewrite S; auto. }
+  pose proof (main_loop_l_ok M2 D2) as LI.
+  pose proof (main_loop_l_shape r2) as (S_st & S_cur & S_uns & S_held & S_fdep & S_l & S_snd & S_pc).
+  assert (Ep : p = main_loop_l r2) by reflexivity. rewrite Ep.
+  split; [exact LI|]. split.
+  { rewrite S_cur. subst r2. destruct mk; simpl; auto. }
+  split.
+  { destruct S_pc as [(X&_)|[(X&_)|(X&_)]]; rewrite X; auto. }
+  split.
+  { rewrite S_snd, S_st. tauto. }
+  split.
+  { rewrite S_st. intros RD i d Hi. subst r2. destruct mk; simpl in RD; try discriminate.
+    destruct Rs as [(S&_)|[(S&_&U)|(S&_)]]; try congruence.
+    rewrite Ru in U. rewrite C1 in U. eapply count_nok_zero; eauto. lia. }
+  split.
+  { rewrite S_held. subst r2. destruct mk; simpl; auto. }
+  split.
+  { rewrite S_l. subst r2. destruct mk; simpl; auto. }
+  rewrite S_st. subst r2. destruct mk; simpl; auto.
+  intros D. destruct Rs as [(S&_)|[(S&_)|(S&_)]]; congruence.
+Qed.
+
+(* the other steps of the coroutine, job-local part *)
+Lemma lmid_of_linv : forall ds mk code r, linv ds mk code r -> started (pc r) = true -> held r = [] ->
+  (finished (st r) = false -> launches r = 0%nat) ->
+  (finished (st r) = true -> launches r = 1%nat -> st r = code_state code) ->
+  (mk = true -> st r = DONE) ->
+  lmid ds mk code r.
+Proof.
+  intros ds mk code r L S H NF FIN MK. constructor; auto.
+  - apply (l_CI L S).
+  - apply (l_L1 L).
+  - intros L1. apply (l_L2 L L1).
+  - apply (l_L0 L).
+  - apply (l_E L).
+  - apply (l_F L).
+Qed.
+
+Lemma lmid_st : forall ds mk code r v, lmid ds mk code r -> mk = false ->
+  (v = DONE -> launches r = 1%nat) -> (v = ERROR -> launches r = 0%nat -> fdep r = true) ->
+  ((exists i, nth_error (cur r) i = Some DFAIL) -> finished v = true) ->
+  (finished v = true -> launches r = 1%nat -> v = code_state code) ->
+  (finished v = false -> launches r = 0%nat) ->
+  lmid ds mk code (w_st r v).
+Proof.
+  intros ds mk code r v [CI L1 MK1 L0 MK ME MF MH MFIN MNF] M D E F FIN NF.
+  constructor; simpl; auto; try congruence.
+  intros L D'. specialize (D D'). congruence.
+Qed.
+
+(* PWoken ALockOutAbort: the aborted start returns *)
+Lemma abort_l_ok : forall ds mk code r, linv ds mk code r -> pc r = PWoken ALockOutAbort -> held r = [] ->
+  let p := abort_l true r in
+  linv ds mk code (fst p) /\ loop_shape (if uns r =? 0 then fst (set_event_l (w_st r READY)) else w_st r WAITING) p.
+Proof.
+  intros ds mk code r L P H p.
+  assert (S : started (pc r) = true) by (rewrite P; auto).
+  assert (L0 : launches r = 0%nat).
+  { pose proof (l_L1 L). destruct (launches r) as [|[|n]] eqn:E; auto; try lia.
+    destruct (l_L2 L E) as (_ & [X|(X&_)]); rewrite P in X; discriminate. }
+  assert (MK : mk = false).
+  { destruct mk; auto. pose proof (l_mk L eq_refl S) as D. pose proof (l_D L D) as X. rewrite P in X. discriminate. }
+  assert (NE : st r <> ERROR).
+  { intros E. destruct (l_EN L E) as [X|X]; rewrite P in X; discriminate. }
+  assert (ND : st r <> DONE).
+  { intros E. pose proof (l_D L E) as X; rewrite P in X; discriminate. }
+  assert (NFL : (exists i, nth_error (cur r) i = Some DFAIL) -> False).
+  { intros X. pose proof (l_F L X) as F. destruct (st r); simpl in F; congruence. }
+  assert (M : lmid ds mk code r).
+  { apply lmid_of_linv; auto; try congruence. }
+  unfold p, abort_l. simpl. destruct (uns r =? 0) eqn:U.
+  - destruct (set_event_l (w_st r READY)) as [r2 w2] eqn:SE. apply set_event_l_spec in SE. simpl in SE.
+    destruct SE as (S_st & S_uns & S_cur & S_held & S_fdep & S_l & S_ev & S_pc). simpl.
+    split; [|apply main_loop_l_shape].
+    apply main_loop_l_ok; [|left; auto].
+    destruct M as [CI L1 MK1 L0' MK' ME MF MH MFIN MNF].
+    constructor; rewrite ?S_st, ?S_uns, ?S_cur, ?S_held, ?S_fdep, ?S_l; auto; try congruence; try discriminate;
+      try (intros X; exfalso; auto; fail).
+  - simpl. split; [|apply main_loop_l_shape].
+    apply main_loop_l_ok.
+    + apply lmid_st; auto; try discriminate; try (intros X; exfalso; auto; fail).
+    + right; right. simpl. split; auto. apply Z.eqb_neq; auto.
+Qed.
+
+(* PWoken AProc: the process has exited *)
+Lemma proc_l_ok : forall ds mk code r, linv ds mk code r -> pc r = PWoken AProc -> held r = [] ->
+  let p := proc_l code r in
+  linv ds mk code (fst p) /\ loop_shape (w_st r (code_state code)) p /\ pc (fst p) = PExt ADoneH.
+Proof.
+  intros ds mk code r L P H p.
+  assert (S : started (pc r) = true) by (rewrite P; auto).
+  assert (L1 : launches r = 1%nat) by (apply (l_run L); rewrite P; auto).
+  destruct (l_L2 L L1) as (MK & _).
+  assert (NE : st r <> ERROR).
+  { intros E. destruct (l_EN L E) as [X|X]; rewrite P in X; discriminate. }
+  assert (ND : st r <> DONE).
+  { intros E. pose proof (l_D L E) as X; rewrite P in X; discriminate. }
+  assert (M : lmid ds mk code (w_st r (code_state code))).
+  { pose proof (l_CI L S). pose proof (l_L1 L).
+    constructor; simpl; auto; try congruence; try lia.
+    - intros _. unfold code_state. destruct (code =? 0); auto.
+    - intros F. unfold code_state in F. destruct (code =? 0); discriminate. }
+  assert (F : finished (code_state code) = true) by (unfold code_state; destruct (code =? 0); auto).
+  unfold p, proc_l. fold (code_state code). unfold loop_tail_l. simpl. rewrite F.
+  split; [apply finish_l_ok; auto|]. split; [apply finish_l_shape; auto|reflexivity].
+Qed.
+
+(* a change of program counter that keeps the class of the job *)
+Lemma linv_deliver : forall ds mk code r a, linv ds mk code r -> pc r = PExt a -> linv ds mk code (w_pc r (PWoken a)).
+Proof.
+  intros ds mk code r a [A D EV CI L1 RUN L2 L0 MK E EN UN F H WR RS] P.
+  constructor; simpl; auto; try discriminate; rewrite P in *; simpl in *;
+    try (destruct a; simpl in *; auto; fail).
+  - intros X. destruct (EN X) as [Y|Y]; [discriminate|]. right. destruct a; auto.
+  - intros X. destruct (H X) as [Y|[Y|[Y|Y]]]; try discriminate; destruct a; simpl in *; try discriminate; auto.
+Qed.
+
+Ltac pcc := intros; try (intuition (try discriminate; try congruence; auto); fail).
+
+Lemma linv_lockoutrun : forall ds mk code r, linv ds mk code r -> pc r = PWoken ALockOutRun -> linv ds mk code (w_pc r (PExt AProc)).
+Proof.
+  intros ds mk code r [A D EV CI L1 RUN L2 L0 MK E EN UN F H WR RS] P.
+  constructor; simpl; rewrite P in *; simpl in *; pcc.
+Qed.
+
+Lemma linv_returned : forall ds mk code r, linv ds mk code r -> pc r = PWoken ADoneH -> linv ds mk code (w_pc r (PReturned (st r))).
+Proof.
+  intros ds mk code r [A D EV CI L1 RUN L2 L0 MK E EN UN F H WR RS] P.
+  constructor; simpl; rewrite P in *; simpl in *; pcc.
+Qed.
+
+Lemma linv_spawned : forall ds mk code r, linv ds mk code r -> pc r = PNot -> linv ds mk code (w_pc r PSpawned).
+Proof.
+  intros ds mk code r [A D EV CI L1 RUN L2 L0 MK E EN UN F H WR RS] P.
+  assert (U := UN). rewrite P in U. simpl in U. destruct (U eq_refl) as (U1&U2&U3&U4&U5&U6).
+  constructor; simpl; auto; try discriminate; try congruence; try lia;
+    try (intros X; rewrite U5 in X; destruct X as [i X]; destruct i; discriminate).
+Qed.
+Lemma linv_dup : forall ds mk code r k, linv ds mk code r -> pc r = PNot -> linv ds mk code (w_pc r (PDup k)).
+Proof.
+  intros ds mk code r k [A D EV CI L1 RUN L2 L0 MK E EN UN F H WR RS] P.
+  assert (U := UN). rewrite P in U. simpl in U. destruct (U eq_refl) as (U1&U2&U3&U4&U5&U6).
+  constructor; simpl; auto; try discriminate; try congruence; try lia;
+    try (intros X; rewrite U5 in X; destruct X as [i X]; destruct i; discriminate).
+Qed.
+
+(* PWoken ALockIn: aio_start after the job lock has been taken *)
+Lemma lockin_facts : forall ds mk code r, linv ds mk code r -> pc r = PWoken ALockIn ->
+  launches r = 0%nat /\ mk = false /\ st r <> ERROR /\ st r <> DONE /\
+  ((exists i, nth_error (cur r) i = Some DFAIL) -> False).
+Proof.
+  intros ds mk code r L P.
+  assert (S : started (pc r) = true) by (rewrite P; auto).
+  assert (L0 : launches r = 0%nat).
+  { pose proof (l_L1 L). destruct (launches r) as [|[|n]] eqn:E; auto; try lia.
+    destruct (l_L2 L E) as (_ & [X|(X&_)]); rewrite P in X; discriminate. }
+  assert (MK : mk = false).
+  { destruct mk; auto. pose proof (l_mk L eq_refl S) as D. pose proof (l_D L D) as X. rewrite P in X. discriminate. }
+  assert (NE : st r <> ERROR).
+  { intros E. destruct (l_EN L E) as [X|X]; rewrite P in X; discriminate. }
+  assert (ND : st r <> DONE).
+  { intros E. pose proof (l_D L E) as X; rewrite P in X; discriminate. }
+  repeat split; auto.
+  intros X. pose proof (l_F L X) as F. destruct (st r); simpl in F; congruence.
+Qed.
+
+Lemma linv_launch : forall ds mk code r hd, linv ds mk code r -> pc r = PWoken ALockIn ->
+  linv ds mk code (w_pc (w_st (w_launches (w_held r hd) (S (launches (w_held r hd)))) RUNNING) (PExt ALockOutRun)).
+Proof.
+  intros ds mk code r hd L P. destruct (lockin_facts L P) as (L0 & MK & NE & ND & NF).
+  destruct L as [A D EV CI L1 RUN L2 L0' MK' E EN UN F H WR RS].
+  constructor; simpl; rewrite P in *; simpl in *; rewrite ?L0; pcc.
+Qed.
+
+Lemma linv_held : forall ds mk code r hd, linv ds mk code r -> pc r = PWoken ALockIn -> linv ds mk code (w_held r hd).
+Proof.
+  intros ds mk code r hd [A D EV CI L1 RUN L2 L0' MK' E EN UN F H WR RS] P.
+  constructor; simpl; rewrite P in *; simpl in *; pcc.
+Qed.
+
+Lemma linv_toabort : forall ds mk code r, linv ds mk code r -> pc r = PWoken ALockIn ->
+  linv ds mk code (w_pc r (PExt ALockOutAbort)).
+Proof.
+  intros ds mk code r L P. destruct (lockin_facts L P) as (L0 & MK & NE & ND & NF).
+  destruct L as [A D EV CI L1 RUN L2 L0' MK' E EN UN F H WR RS].
+  constructor; simpl; rewrite P in *; simpl in *; rewrite ?L0; pcc.
+Qed.
+
+Lemma linv_release : forall ds mk code r, linv ds mk code r -> started (pc r) = true -> linv ds mk code (w_held r []).
+Proof.
+  intros ds mk code r [A D EV CI L1 RUN L2 L0' MK' E EN UN F H WR RS] S.
+  constructor; simpl; pcc.
+Qed.
+
+(* ------------------------------------------------------------------ the global invariant *)
+Definition jl (W : workload) (s : state) (x : nat) : Prop :=
+  linv (deps W x) (j_marker (spec W x)) (j_code (spec W x)) (jobs s x).
+
+Definition cb_ok (s : state) (c : cb) : Prop :=
+  match c with
+  | CCheck j _ | CNotify j _ => started (pc (jobs s j)) = true
+  | _ => True
+  end.
+
+Definition cntf (s : state) (j : nat) : bool := counted (pc (jobs s j)).
+
+Record Inv (W : workload) (s : state) : Prop := {
+  I_loc : forall x, jl W s x;
+  I_out : forall x, (njobs W <= x)%nat -> pc (jobs s x) = PNot;
+  I_CO : forall x i k, started (pc (jobs s x)) = true -> nth_error (cur (jobs s x)) i = Some DOK ->
+           nth_error (deps W x) i = Some (DJob k) -> st (jobs s k) = DONE;
+  I_CF : forall x i, started (pc (jobs s x)) = true -> nth_error (cur (jobs s x)) i = Some DFAIL ->
+           exists k, nth_error (deps W x) i = Some (DJob k) /\ st (jobs s k) = ERROR;
+  I_RD : forall x k, (st (jobs s x) = READY \/ in_start (pc (jobs s x)) = true) -> In (DJob k) (deps W x) ->
+           st (jobs s k) = DONE;
+  I_FD : forall x, fdep (jobs s x) = true -> exists k, In (DJob k) (deps W x) /\ st (jobs s k) = ERROR;
+  I_LD : forall x k, launches (jobs s x) = 1%nat -> In (DJob k) (deps W x) -> st (jobs s k) = DONE;
+  I_sub : forall x k, spawned (pc (jobs s x)) = true -> In (DJob k) (deps W x) -> spawned (pc (jobs s k)) = true;
+  I_cnt : unfinished s = Z.of_nat (length (filter (cntf s) (seq 0 (njobs W))));
+  I_failed : forall x, In x (failed s) <-> (past_loop (pc (jobs s x)) = true /\ st (jobs s x) <> DONE);
+  I_q : forall c, In c (queue s) -> cb_ok s c
+}.
+
+Lemma wf_dep : forall W j d, wf W = true -> In d (deps W j) -> dep_wf W j d = true.
+Proof.
+  intros W j d H I. unfold wf in H. rewrite forallb_forall in H.
+  destruct (Nat.lt_ge_cases j (njobs W)) as [L|L].
+  - assert (X : In j (seq 0 (njobs W))) by (apply in_seq; lia).
+    specialize (H _ X). rewrite forallb_forall in H. auto.
+  - unfold deps, spec in I. rewrite nth_overflow in I; auto; simpl in I; contradiction.
+Qed.
+Lemma wf_lt : forall W j k, wf W = true -> In (DJob k) (deps W j) -> (k < j)%nat.
+Proof. intros W j k H I. pose proof (@wf_dep W j (DJob k) H I) as X. simpl in X. apply Nat.ltb_lt; auto. Qed.
+
+Lemma count_upd_gen : forall (f : nat -> bool) (g : nat -> bool) j a n,
+  (forall x, x <> j -> f x = g x) ->
+  (length (filter f (seq a n)) + (if (a <=? j)%nat && (j <? a + n)%nat then (if g j then 1 else 0) else 0)
+   = length (filter g (seq a n)) + (if (a <=? j)%nat && (j <? a + n)%nat then (if f j then 1 else 0) else 0))%nat.
+Proof.
+  intros f g j a n H. revert a. induction n; intros a; simpl.
+  - destruct ((a <=? j)%nat && (j <? a + 0)%nat) eqn:E; auto.
+    apply andb_true_iff in E. destruct E as [E1 E2]. apply Nat.leb_le in E1. apply Nat.ltb_lt in E2. lia.
+  - specialize (IHn (S a)).
+    destruct (Nat.eq_dec a j) as [->|N].
+    + assert (E0 : ((j <=? j)%nat && (j <? j + S n)%nat) = true).
+      { apply andb_true_iff; split; [apply Nat.leb_le|apply Nat.ltb_lt]; lia. }
+      assert (E1 : ((S j <=? j)%nat && (j <? S j + n)%nat) = false).
+      { apply andb_false_iff; left. apply Nat.leb_gt. lia. }
+      rewrite E0. rewrite E1 in IHn. destruct (f j), (g j); simpl; lia.
+    + rewrite (H a N).
+      assert (E : ((a <=? j)%nat && (j <? a + S n)%nat) = ((S a <=? j)%nat && (j <? S a + n)%nat)).
+      { replace (a + S n)%nat with (S a + n)%nat by lia. f_equal.
+        destruct (a <=? j)%nat eqn:A1; destruct (S a <=? j)%nat eqn:A2; auto;
+          [apply Nat.leb_le in A1; apply Nat.leb_gt in A2; lia | apply Nat.leb_gt in A1; apply Nat.leb_le in A2; lia]. }
+      rewrite E. set (c := ((S a <=? j)%nat && (j <? S a + n)%nat)) in *. destruct (g a); simpl; lia.
+Qed.
+
+Lemma inv_update : forall W s s' j r',
+  wf W = true -> Inv W s -> (j < njobs W)%nat ->
+  jobs s' = upd (jobs s) j r' ->
+  linv (deps W j) (j_marker (spec W j)) (j_code (spec W j)) r' ->
+  (st (jobs s j) = DONE -> st r' = DONE) -> (st (jobs s j) = ERROR -> st r' = ERROR) ->
+  (started (pc (jobs s j)) = true -> started (pc r') = true) ->
+  (past_loop (pc (jobs s j)) = true -> past_loop (pc r') = true) ->
+  (spawned (pc (jobs s j)) = true -> spawned (pc r') = true) ->
+  (spawned (pc r') = true -> forall k, In (DJob k) (deps W j) -> spawned (pc (jobs s k)) = true) ->
+  (forall i k, started (pc r') = true -> nth_error (cur r') i = Some DOK -> nth_error (deps W j) i = Some (DJob k) ->
+     st (jobs s k) = DONE) ->
+  (forall i, started (pc r') = true -> nth_error (cur r') i = Some DFAIL ->
+     exists k, nth_error (deps W j) i = Some (DJob k) /\ st (jobs s k) = ERROR) ->
+  ((st r' = READY \/ in_start (pc r') = true) -> forall k, In (DJob k) (deps W j) -> st (jobs s k) = DONE) ->
+  (fdep r' = true -> exists k, In (DJob k) (deps W j) /\ st (jobs s k) = ERROR) ->
+  (launches r' = 1%nat -> forall k, In (DJob k) (deps W j) -> st (jobs s k) = DONE) ->
+  unfinished s' - unfinished s = (if counted (pc r') then 1 else 0) - (if counted (pc (jobs s j)) then 1 else 0) ->
+  (forall x, In x (failed s') <->
+     In x (failed s) \/ (x = j /\ past_loop (pc r') = true /\ past_loop (pc (jobs s j)) = false /\ st r' <> DONE)) ->
+  (forall c, In c (queue s') -> In c (queue s) \/ cb_ok s' c) ->
+  Inv W s'.
+Proof.
+  intros W s s' j r' WF I Jn EJ L SD SE SS SP SW SUB CO CF RD FD LD CNT FL Q.
+  set (r := jobs s j) in *.
+  assert (SAME : forall x, x <> j -> jobs s' x = jobs s x).
+  { intros x N. rewrite EJ. apply upd_other; auto. }
+  assert (ATJ : jobs s' j = r') by (rewrite EJ; apply upd_same).
+  assert (STD : forall k, st (jobs s k) = DONE -> st (jobs s' k) = DONE).
+  { intros k D. destruct (Nat.eq_dec k j) as [->|N]; [rewrite ATJ; auto|rewrite SAME; auto]. }
+  assert (STE : forall k, st (jobs s k) = ERROR -> st (jobs s' k) = ERROR).
+  { intros k D. destruct (Nat.eq_dec k j) as [->|N]; [rewrite ATJ; auto|rewrite SAME; auto]. }
+  assert (STA : forall k, started (pc (jobs s k)) = true -> started (pc (jobs s' k)) = true).
+  { intros k D. destruct (Nat.eq_dec k j) as [->|N]; [rewrite ATJ; auto|rewrite SAME; auto]. }
+  assert (SPW : forall k, spawned (pc (jobs s k)) = true -> spawned (pc (jobs s' k)) = true).
+  { intros k D. destruct (Nat.eq_dec k j) as [->|N]; [rewrite ATJ; auto|rewrite SAME; auto]. }
+  constructor.
+  - intros x. unfold jl. destruct (Nat.eq_dec x j) as [->|N]; [rewrite ATJ; auto|rewrite SAME; auto; apply (I_loc I)].
+  - intros x G. rewrite SAME; [apply (I_out I); auto|lia].
+  - intros x i k. destruct (Nat.eq_dec x j) as [->|N].
+    + rewrite ATJ. intros. apply STD. eapply CO; eauto.
+    + rewrite SAME; auto. intros. apply STD. eapply (I_CO I); eauto.
+  - intros x i. destruct (Nat.eq_dec x j) as [->|N].
+    + rewrite ATJ. intros A B. destruct (CF _ A B) as (k & K1 & K2). exists k; split; auto.
+    + rewrite SAME; auto. intros A B. destruct (I_CF I _ _ A B) as (k & K1 & K2). exists k; split; auto.
+  - intros x k. destruct (Nat.eq_dec x j) as [->|N].
+    + rewrite ATJ. intros. apply STD. eapply RD; eauto.
+    + rewrite SAME; auto. intros. apply STD. eapply (I_RD I); eauto.
+  - intros x. destruct (Nat.eq_dec x j) as [->|N].
+    + rewrite ATJ. intros A. destruct (FD A) as (k & K1 & K2). exists k; split; auto.
+    + rewrite SAME; auto. intros A. destruct (I_FD I _ A) as (k & K1 & K2). exists k; split; auto.
+  - intros x k. destruct (Nat.eq_dec x j) as [->|N].
+    + rewrite ATJ. intros. apply STD. eapply LD; eauto.
+    + rewrite SAME; auto. intros. apply STD. eapply (I_LD I); eauto.
+  - intros x k. destruct (Nat.eq_dec x j) as [->|N].
+    + rewrite ATJ. intros. apply SPW. eapply SUB; eauto.
+    + rewrite SAME; auto. intros. apply SPW. eapply (I_sub I); eauto.
+  - pose proof (@count_upd_gen (cntf s') (cntf s) j 0 (njobs W)) as C.
+    assert (HX : forall x, x <> j -> cntf s' x = cntf s x).
+    { intros x N. unfold cntf. rewrite SAME; auto. }
+    specialize (C HX). clear HX.
+    assert (E : ((0 <=? j)%nat && (j <? 0 + njobs W)%nat) = true).
+    { apply andb_true_iff; split; [apply Nat.leb_le|apply Nat.ltb_lt]; lia. }
+    rewrite E in C. unfold cntf at 2 4 in C. rewrite ATJ in C. fold r in C.
+    pose proof (I_cnt I) as C0.
+    destruct (counted (pc r')), (counted (pc r)); lia.
+  - intros x. rewrite FL. rewrite (I_failed I). destruct (Nat.eq_dec x j) as [->|N].
+    + rewrite ATJ. fold r. split.
+      * intros [(P & D)|(_ & P & NP & D)].
+        -- split; [auto|]. pose proof (l_A (I_loc I j) P) as F. fold r in F.
+           destruct (st r) eqn:S; simpl in F; try discriminate; [exfalso; auto|]. rewrite SE; auto; discriminate.
+        -- split; auto.
+      * intros (P & D). destruct (past_loop (pc r)) eqn:PR.
+        -- left. split; auto; intros D'; apply D; auto.
+        -- right. auto.
+    + rewrite SAME; auto. split; [intros [X|(X&_)]; [auto|contradiction]|auto].
+  - intros c Hc. destruct (Q c Hc) as [X|X]; auto.
+    pose proof (I_q I c X) as Y. destruct c; simpl in *; auto.
+Qed.
+
